@@ -21,7 +21,10 @@ EXTENDS Integers, Sequences, FiniteSets, TLC
 CONSTANTS NEvents,      \* key / axis events that arrive before the stream ends (some of them panic: touches ext)
           NMidi,        \* MIDI-input messages offered
           MaxCycles,    \* LED refresh cycles modelled (bound)
-          CleanupLocks  \* locks held by the disconnect clean-up: {} or {"M"}
+          CleanupLocks, \* locks held by the disconnect clean-up: {} or {"M"}
+          Unbounded     \* TRUE: the three counters are not counted down - any number of events, MIDI-input messages and
+                        \* LED cycles; the state space stays finite (locations, locks, flags, accesses), so TLC's
+                        \* exhaustive run then covers lives of every length
 
 Procs == {"main", "led", "midiin"}
 None == [var |-> "none", w |-> FALSE, locks |-> {}]
@@ -46,7 +49,7 @@ CloseInput == /\ ~inputClosed /\ inputClosed' = TRUE
 
 \* ---- main
 MRecvEvent == /\ pc["main"] = "recv" /\ events > 0 /\ ~inputClosed
-              /\ events' = events - 1 /\ Goto("main", "lock")
+              /\ events' = (IF Unbounded THEN events ELSE events - 1) /\ Goto("main", "lock")
               /\ UNCHANGED <<M, X, ctxDone, wg, inputClosed, midi, cycles, acc>>
 MRecvClosed == /\ pc["main"] = "recv" /\ inputClosed
                /\ ctxDone' = TRUE                                  \* cancel()
@@ -89,7 +92,7 @@ LConnectWait == /\ pc["led"] = "connect" /\ ~ctxDone          \* still connectin
 LLoop == /\ pc["led"] = "loop"
          /\ IF ctxDone \/ cycles >= MaxCycles THEN Goto("led", IF ctxDone THEN "red" ELSE "loop") ELSE Goto("led", "lockm")
          /\ UNCHANGED <<M, X, ctxDone, wg, inputClosed, events, midi, cycles, acc>>
-LLockM == /\ pc["led"] = "lockm" /\ M = "free" /\ M' = "led" /\ cycles' = cycles + 1 /\ Goto("led", "read")
+LLockM == /\ pc["led"] = "lockm" /\ M = "free" /\ M' = "led" /\ cycles' = (IF Unbounded THEN cycles ELSE cycles + 1) /\ Goto("led", "read")
           /\ UNCHANGED <<X, ctxDone, wg, inputClosed, events, midi, acc>>
 LRead == /\ pc["led"] = "read" /\ Begin("led", "state", FALSE) /\ Goto("led", "lockx")
          /\ UNCHANGED <<M, X, ctxDone, wg, inputClosed, events, midi, cycles>>
@@ -110,7 +113,7 @@ LRed == /\ pc["led"] = "red" /\ wg' = wg - 1 /\ Goto("led", "done")
 \* ---- midiin
 ILoopDone == /\ pc["midiin"] = "loop" /\ ctxDone /\ wg' = wg - 1 /\ Goto("midiin", "done")
              /\ UNCHANGED <<M, X, ctxDone, inputClosed, events, midi, cycles, acc>>
-ILoopMsg == /\ pc["midiin"] = "loop" /\ midi > 0 /\ midi' = midi - 1 /\ Goto("midiin", "lockx")
+ILoopMsg == /\ pc["midiin"] = "loop" /\ midi > 0 /\ midi' = (IF Unbounded THEN midi ELSE midi - 1) /\ Goto("midiin", "lockx")
             /\ UNCHANGED <<M, X, ctxDone, wg, inputClosed, events, cycles, acc>>
 ILockX == /\ pc["midiin"] = "lockx" /\ X = "free" /\ X' = "midiin" /\ Goto("midiin", "write")
           /\ UNCHANGED <<M, ctxDone, wg, inputClosed, events, midi, cycles, acc>>
@@ -125,7 +128,12 @@ LedNext == LConnect \/ LLoop \/ LLockM \/ LRead \/ LLockX \/ LReadExt \/ LUnlock
 MidiNext == ILoopDone \/ ILoopMsg \/ ILockX \/ IWrite \/ IUnlockX
 Next == CloseInput \/ MainNext \/ LedNext \/ MidiNext \/ LConnectWait
 
+\* Go's select picks among its ready cases at random: with messages always on offer the Done case of the MIDI-input
+\* loop is still taken eventually (strong fairness) - needed only when Unbounded
 Spec == Init /\ [][Next]_vars /\ WF_vars(MainNext) /\ WF_vars(LedNext) /\ WF_vars(MidiNext) /\ WF_vars(CloseInput)
+             /\ SF_vars(ILoopDone)
+             \* sync.Mutex does not starve a waiter (starvation mode hands the lock over after 1 ms)
+             /\ SF_vars(MLock) /\ SF_vars(MPanicLockX) /\ SF_vars(MCleanLock) /\ SF_vars(LLockM) /\ SF_vars(LLockX) /\ SF_vars(ILockX)
 
 -----------------------------------------------------------------------------
 \* no two goroutines touch the same data at the same time, one of them writing, without a common lock
